@@ -10,6 +10,7 @@ import (
 	"flag"
 	"fmt"
 	"os"
+	"strconv"
 	"time"
 
 	"github.com/LiskHQ/lisk-engine/pkg/blockchain"
@@ -288,8 +289,16 @@ func restart(n *exh.Node) *c05x.ERestart {
 // advanced by one draw: consecutive idx would give shifted copies of ONE stream. Its first output is used as the seed instead.
 func newRng(seed, idx uint64) *hx.Rng { return hx.NewRng(hx.NewRng(seed*1000003 + idx).U64()) }
 
+// watchdogScale: VERIF_WATCHDOG_X multiplies the time limits (the check retries once with a larger factor on a loaded machine).
+func watchdogScale() time.Duration {
+	if v, err := strconv.Atoi(os.Getenv("VERIF_WATCHDOG_X")); err == nil && v > 0 {
+		return time.Duration(v)
+	}
+	return 1
+}
+
 func watchdog(what string) *time.Timer {
-	return time.AfterFunc(120*time.Second, func() { fmt.Fprintln(os.Stderr, "c05e: timed out:", what); os.Exit(3) })
+	return time.AfterFunc(120*time.Second*watchdogScale(), func() { fmt.Fprintln(os.Stderr, "c05e: timed out:", what); os.Exit(3) })
 }
 
 func runHist(seed, idx uint64, gt uint32) *c05x.EHist {
@@ -341,6 +350,17 @@ func runHist(seed, idx uint64, gt uint32) *c05x.EHist {
 		ea := h.apply(x, removeTemp, reapply)
 		rec.Steps = append(rec.Steps, ea)
 		afterDelete, raised = false, ea.Err == "ok" && ea.FhPost > ea.FhPre
+	}
+	if idx == 0 {
+		// scripted tail of the first history (so that the check's count floors are met by construction): two tip deletes, each
+		// followed by a sibling; the tip is above the finalized height after the applies, so the twin probe runs as well
+		for j := 0; j < 2; j++ {
+			if tip, f := n.Tip(), fh(n); tip != nil && int64(tip.Header.Height) > f {
+				rec.Steps = append(rec.Steps, h.del(tip, j == 0, false))
+			}
+			rec.Steps = append(rec.Steps, h.apply(h.build(true, h.lastDel), false, false))
+		}
+		rec.Steps = append(rec.Steps, h.apply(h.build(true, nil), false, false))
 	}
 	rec.Twin = h.twin(opt)
 	rec.FinalFlushDiff = flushDiff(n, dump(n))
